@@ -4,8 +4,8 @@ import Model.Limiter
 /-!
 Line protocol of engine `queue`.
 
-`script <mode 0|1|0t|1t> <op> <op> …` — model-guided run (T-step). Mode: `1` = short flush interval,
-`t` = tiny `shutdown_timeout`. Ops:
+`script <mode 0|1|0t|1t>[e] <op> <op> …` — model-guided run (T-step). Mode: `1` = short flush interval,
+`t` = tiny `shutdown_timeout`, `e` = the stream's `flush` and report calls fail too (not an input of the model). Ops:
   `new:<cap>` (must be first) | `append:<h>:<o|v|i>` | `clone:<h>` | `drop:<h>` | `gate:<k>` | `flush` |
   `forget` | `dropjoin` | `dropjoinU` | `dropjoinT` | `dropU:<h>` | `fclose` | `fopen` | `fstep` (one `flush`
   call may pass the shut flush gate) | `hclose` | `hopen` (the recorder gate: the writer's end-of-cycle histogram
@@ -47,8 +47,12 @@ def joinWith (sep : String) (xs : List String) : String := sep.intercalate xs
 def natList (xs : List Nat) : String :=
   if xs.isEmpty then "-" else joinWith "," (xs.map toString)
 
+/-- scripted result of `stream.next`: `o`, `v`, or an I/O error `i` / `ib` / `ii` / `iw` / `it` / `iz` / `ie` (the
+`io::ErrorKind`: Other, BrokenPipe, Interrupted, WouldBlock, TimedOut, WriteZero, UnexpectedEof). The kind is
+not an input of the model: every I/O error is `Res.io`. -/
 def parseRes (s : String) : Option Res :=
-  if s == "o" then some .ok else if s == "v" then some .validation else if s == "i" then some .io else none
+  if s == "o" then some .ok else if s == "v" then some .validation
+  else if ["i", "ib", "ii", "iw", "it", "iz", "ie"].contains s then some .io else none
 
 inductive Op where
   | new (cap : Nat) | append (h : Nat) (r : Res) | clone | drop | gate (k : Nat) | flush | forget | dropjoin
@@ -109,6 +113,14 @@ structure GState where
   /-- short interval only: the harness let several flush intervals pass while the writer was held at a
   gate, so the deadline of the writer's current outer-loop iteration has certainly passed -/
   late : Bool := false
+  /-- the writer was parked when the current op was issued (the real writer may still have been inside
+  the drain loop of its previous pass: a hidden race) -/
+  fromPark : Bool := false
+  /-- `count` of the most recently finished drain pass -/
+  lastCount : Nat := 0
+  /-- the `count` of the running drain pass is ambiguous: the real one may be larger by `ambigBase`
+  (the pass may be the continuation of the previous one) -/
+  ambigBase : Nat := 0
 
 /-- is the next writer step going to call `stream.flush()` (where the flush gate can hold it)? -/
 def atFlush (s : QState) : Bool :=
@@ -157,9 +169,11 @@ not known to have passed: the deadline test of a main-loop drain at a multiple o
 flush or recorder gate shut, the `now >= next_flush` test while wakers wait, which decides at which
 call the writer is held) -/
 def clockDependent (cfg : RunCfg) (g : GState) : Bool :=
-  cfg.short && !g.late && (match g.s.wpc with
-    | .holding _ n => (n + 1) % 32 == 0
-    | .checkTime => (g.fclosed || g.hclosed) && !g.s.waiting.isEmpty
+  cfg.short && (match g.s.wpc with
+    | .holding _ n =>
+      -- a deadline test whose outcome is unknown, or whose position is unknown
+      (!g.late && (n + 1) % 32 == 0) || (g.ambigBase > 0 && ((n + 1) % 32 == 0 || (n + 1 + g.ambigBase) % 32 == 0))
+    | .checkTime => !g.late && (g.fclosed || g.hclosed) && !g.s.waiting.isEmpty
     | _ => false)
 
 /-- one writer step of a guided run; a new outer-loop iteration computes a new deadline -/
@@ -168,7 +182,18 @@ def gstep (cfg : RunCfg) (g : GState) : Option GState :=
   | none => none
   | some s' =>
     let newIteration := g.s.wpc == .checkHandles && s'.wpc == .drain 0
-    some { g with s := s', dep := g.dep || clockDependent cfg g, late := g.late && !newIteration }
+    -- a pass that starts with a pop right after the op found the writer parked may really be the continuation
+    -- of the previous pass (the harness proceeds as soon as it sees the entry written, the writer may not yet
+    -- have seen its ring empty): then the real `count` is larger by the previous pass's count
+    let startsAmbiguous := g.fromPark && g.s.wpc == .drain 0 && !g.s.ring.isEmpty && g.lastCount > 0
+    let passEnds := match g.s.wpc with | .afterDrain _ _ => true | _ => false
+    -- (empty passes of timed-out laps do not count: at the time of the next op the real writer may not have
+    -- got that far; a continuation of a continuation adds up)
+    let lastCount := match g.s.wpc with | .afterDrain _ n => if n > 0 then n + g.ambigBase else g.lastCount | _ => g.lastCount
+    some { g with s := s', dep := g.dep || clockDependent cfg g, late := g.late && !newIteration,
+                  fromPark := g.fromPark && g.s.wpc != .drain 0,
+                  ambigBase := if startsAmbiguous then g.lastCount else if passEnds then 0 else g.ambigBase,
+                  lastCount := lastCount }
 
 /-- run the writer until it blocks: in `park`, inside `next` without a permit, inside `flush` with the
 flush gate shut, inside a recorder callback with the recorder gate shut, or because it has exited -/
@@ -191,17 +216,28 @@ def settleG : Nat → RunCfg → GState → GState
       | none => g
       | some g' => settleG fuel cfg g'
 
-/-- run the writer to quiescence (plus one timed-out lap of the outer loop in short mode) -/
-def quiesce (cfg : RunCfg) (g : GState) : GState :=
-  let g1 := settleG fuel cfg g
-  let g2 :=
-    if cfg.short && g1.s.wpc == .parking then
-      match wstep g1.s (lateClock false) with
+/-- short interval: a parked writer keeps performing timed-out laps of the outer loop; a lap changes
+nothing observable unless it uses up an `fstep` permit or gets held at a gate — repeat until stable -/
+def laps : Nat → RunCfg → GState → GState
+  | 0, _, g => g
+  | n + 1, cfg, g =>
+    if cfg.short && g.s.wpc == .parking then
+      match wstep g.s (lateClock false) with
       | some a => match wstep a (lateClock false) with
-        | some b => settleG fuel cfg { g1 with s := b }
-        | none => { g1 with s := a }
-      | none => g1
-    else g1
+        | some b =>
+          let g' := settleG fuel cfg { g with s := b }
+          if g'.s.wpc == .parking && g'.fpermits == g.fpermits then g' else laps n cfg g'
+        | none => { g with s := a }
+      | none => g
+    else g
+
+/-- run the writer to quiescence (plus timed-out laps of the outer loop in short mode) -/
+def quiesce (cfg : RunCfg) (g0 : GState) : GState :=
+  let g := { g0 with fromPark := g0.s.wpc == .parking }
+  let g1 := settleG fuel cfg g
+  let g2' := laps 64 cfg g1
+  -- held inside `flush` or a recorder callback: the previous drain pass has certainly ended
+  let g2 := if flushBlocked g2' || recBlocked g2' then { g2' with lastCount := 0 } else g2'
   -- `drop(join_handle)` returns as soon as the thread has exited
   match step g2.s .dropJoinEnd with
   | some s3 => { g2 with s := s3 }
@@ -246,7 +282,10 @@ def runScript (cfg : RunCfg) (ops : List Op) : Option (List String) :=
     go g0 rest [observe cfg g0]
   | _ => none
 
-def parseMode (s : String) : Option RunCfg :=
+def parseMode (s0 : String) : Option RunCfg :=
+  -- a trailing `e` (the stream's `flush` and report calls fail too, with every error kind in turn) changes
+  -- nothing in the model
+  let s := if s0.endsWith "e" then String.ofList (s0.toList.dropLast) else s0
   if s == "0" then some ⟨false, false⟩ else if s == "1" then some ⟨true, false⟩
   else if s == "0t" then some ⟨false, true⟩ else if s == "1t" then some ⟨true, true⟩ else none
 
